@@ -11,6 +11,7 @@ import subprocess
 
 from vlib import build, common, harness
 
+REPO_PREFIX = common.REPO_PREFIX
 PID = "C09"
 DATA = "/repo/tests/data/"
 
@@ -54,7 +55,7 @@ def tsan_reports(logdir):
             kind = re.search(r"WARNING: ThreadSanitizer: ([^\(\n]+)", block).group(1).strip()
             stacks = re.split(r"\n\s*\n", block)
             frames = re.findall(r"#\d+ (\S+) (\S+)", block)
-            fns = [f for f, loc in frames if "/repo/" in loc or "libyara" in loc]
+            fns = [f for f, loc in frames if (REPO_PREFIX in loc) or "libyara" in loc]
             key = kind + ":" + ">".join(fns[:3])
             reports.append((key, block[:3000]))
     return reports
